@@ -28,6 +28,8 @@ def rand_times(rng, n):
         t = H24 - 10 ** 7 - rng.randrange(10 ** 6)
     while len(out) < n:
         d = rng.choice([1000, 40000, 999000, 1000000, 1500000, 2002000, 60000000])
+        if rng.random() < 0.12:
+            d = rng.choice([0, 1, 400, 999])      # a cue shorter than the format's resolution (its end falls into the start's millisecond / frame)
         a, b = t, t + d
         if b + 1 >= H24:
             break
@@ -146,7 +148,7 @@ def explore(chk):
                     idxs.append(int(m.group(1))); got.append((parse_stamp12(m.group(2)), parse_stamp12(m.group(3))))
                 want = []
                 for times in langs_times:   # one cue per maximal run of equal timespans, per language block
-                    want += runs([(trunc_ms(a), trunc_ms(b_)) for a, b_ in times])
+                    want += [(trunc_ms(a), trunc_ms(b_)) for a, b_ in runs([(Fraction(a), Fraction(b_)) for a, b_ in times])]
                 if got != want:
                     chk.property_failure(dict(case, parsed=str(got), spec=str(want)), "srt: written timing lines are not the captions' start/end truncated to ms (one cue per run of equal timespans)")
                 if out is not None and core.dec(out[ops["srt"]]) != doc:
@@ -181,9 +183,9 @@ def explore(chk):
                     for p in div.findall("t:p", ns):
                         g.append((parse_stamp12(p.get("begin")), parse_stamp12(p.get("end")))); raw.append((p.get("begin"), p.get("end")))
                     got.append(g)
-                want = [[(trunc_ms(a), trunc_ms(b_)) for a, b_ in times] for times in langs_times]
-                if wname != "dfxp":
-                    want = [runs(w) for w in want]
+                # a run = consecutive captions with IDENTICAL start and end (not merely equal after truncation)
+                want = [[(trunc_ms(a), trunc_ms(b_)) for a, b_ in (times if wname == "dfxp" else runs([(Fraction(a), Fraction(b_)) for a, b_ in times]))]
+                        for times in langs_times]
                 if got != want:
                     chk.property_failure(dict(case, parsed=str(got), spec=str(want)), "%s: begin/end are not the captions' start/end truncated to ms, one p per caption%s" % (wname, "" if wname == "dfxp" else " run"))
                 if out is not None and wname == "dfxp":
